@@ -18,6 +18,10 @@ def auto(site):
         if site.kind == 'div0':
             return 'P1 width: divisor range %s excludes 0' % (d.get('divisor'),)
         return 'P1 width'
+    if site.kind == 'overflow:Div':
+        dv = d.get('b')
+        if dv is not None and dv[0] >= 0:
+            return 'P1 width: divisor range %s excludes -1 (the only overflowing divisor)' % (dv,)
     if site.kind == 'ext:chunks_exact':
         n = q.const_val(d['args'][1]) if len(d.get('args', [])) > 1 else None
         if isinstance(n, int) and n > 0:
